@@ -15,6 +15,9 @@
  *     A failed fclose discards the stdio buffer (the flush failed); a failed
  *     close truncates the file to its size before the last write on that
  *     descriptor (a deferred write error reported at close).
+ * env RT_SHORTSCHED=<seed>: EVERY write on a descriptor of the script transfers a
+ *     pseudo-random part of what was asked (1..n bytes, biased to both ends); each
+ *     call is logged as "<asked>><transferred>," after " wlog=" (asked>- = error)
  * env RT_KILL=<n>: _exit(77) before the n-th intercepted I/O call
  * env RT_READDIR=<spec>: readdir order inside the script, one character per
  *     entry: '.' = ".", ':' = "..", 'o' = stream.obs, 'j' = stream.json
@@ -49,6 +52,8 @@ struct shared {
 	volatile long nfault;    /* faults fired */
 	volatile long loglen;
 	char log[1 << 16];
+	volatile long wloglen;
+	char wlog[1 << 18];
 };
 static struct shared *sh;
 
@@ -145,6 +150,34 @@ int open(const char *path, int flags, ...)
 	return real_open(path, flags, mode);
 }
 
+static int sched_on = 0;
+static uint64_t sched_state = 0;
+
+static void wlogf(size_t n, long k)
+{
+	if (!sh) return;
+	long room = (long) sizeof(sh->wlog) - sh->wloglen - 1;
+	if (room < 48) return;
+	int w = k < 0 ? snprintf(sh->wlog + sh->wloglen, (size_t) room, "%zu>-,", n)
+		      : snprintf(sh->wlog + sh->wloglen, (size_t) room, "%zu>%ld,", n, k);
+	if (w > 0) sh->wloglen += w;
+}
+
+/* how much of an n-byte request the "kernel" transfers */
+static size_t sched_cut(size_t n)
+{
+	if (n <= 1) return n;
+	sched_state = sched_state * 6364136223846793005ULL + 1442695040888963407ULL;
+	uint64_t r = sched_state >> 33;
+	switch (r & 7) {
+	case 0: return 1;                                  /* a single byte */
+	case 1: return n - 1;                              /* all but one */
+	case 2: return n;                                  /* complete */
+	case 3: return 1 + (r >> 3) % (n < 16 ? n : 16);   /* a few bytes */
+	default: return 1 + (r >> 3) % n;                  /* anything */
+	}
+}
+
 static int last_write_fd = -1;
 static off_t last_write_off = 0;
 
@@ -154,9 +187,19 @@ ssize_t write(int fd, const void *buf, size_t n)
 	if (!in_script || fd <= 2) return real_write(fd, buf, n);
 	int g = gate(K_WRITE);
 	logf_("write %zu|", n);
-	if (g > 0) { errno = g; return -1; }
+	if (g > 0) { if (sched_on) wlogf(n, -1); errno = g; return -1; }
 	last_write_fd = fd;
 	last_write_off = lseek(fd, 0, SEEK_CUR);
+	if (sched_on) {
+		/* bound the number of calls per buffer: after 64 short answers in a row, complete */
+		static int in_row = 0;
+		size_t k = sched_cut(n);
+		if (k < n && ++in_row > 64) k = n;
+		if (k == n) in_row = 0;
+		ssize_t w = real_write(fd, buf, k);
+		wlogf(n, (long) w);
+		return w;
+	}
 	if (g == -2 && n > 1) return real_write(fd, buf, n / 2);
 	return real_write(fd, buf, n);
 }
@@ -432,6 +475,7 @@ int main(int argc, char **argv)
 	const char *e;
 	if ((e = getenv("RT_KILL"))) kill_at = atol(e);
 	if ((e = getenv("RT_LOG"))) log_on = atoi(e);
+	if ((e = getenv("RT_SHORTSCHED"))) { sched_on = 1; sched_state = strtoull(e, NULL, 10) * 2654435761ULL + 1; }
 	if ((e = getenv("RT_READDIR")) && strcmp(e, "native") != 0) readdir_spec = e;
 	if ((e = getenv("RT_FAULT"))) {
 		char tmp[128];
@@ -489,6 +533,7 @@ int main(int argc, char **argv)
 			printf("crash:%d@%ld", st, sh->op);
 		printf(" calls=%ld faults=%ld", sh->ncalls, sh->nfault);
 		if (log_on) { sh->log[sizeof(sh->log) - 1] = 0; printf(" log=%s", sh->log); }
+		if (sched_on) { sh->wlog[sizeof(sh->wlog) - 1] = 0; printf(" wlog=%s", sh->wlog); }
 		printf("\n");
 		k++;
 	}
